@@ -698,6 +698,18 @@ def rule_dispatch(ctx: Ctx) -> RuleReport:
         rep.ok({"signature": "tar", "magic": "ustar @257 (prefix shared by POSIX and GNU headers)"})
     else:
         rep.fail(Finding("C10-DISPATCH", ARCH, "TAR_MAGIC", f"{tm!r} @ {to!r}", f"uncompressed TAR is recognised by {tm!r} at offset {to!r}; the magic field is 'ustar\\0' in POSIX/pax headers but 'ustar  \\0' in GNU tar's default format, so anything longer than the five letters b'ustar' at offset 257 rejects one of them"))
+    # a TAR starts with the name of its first member: the ustar test comes before the prefix signatures
+    sig_loop = next((l for l in walk_own(det.node) if isinstance(l, ast.For) and norm(l.iter) == "MAGIC_SIGNATURES"), None)
+    tar_ret = next((r for r in walk_own(det.node) if isinstance(r, ast.Return) and isinstance(r.value, ast.Constant) and r.value.value == "tar"), None)
+    if sig_loop is None or tar_ret is None:
+        raise AnalysisError("C10-DISPATCH: the signature loop / the `return 'tar'` of the detector was not found")
+    cfgd = ctx.cfg(det)
+    from sa.engine.cfg import normally_dominates as _nd
+    tar_tests = [i for i in walk_own(det.node) if isinstance(i, ast.If) and any(x is tar_ret for x in ast.walk(i)) and "TAR_MAGIC" in norm(i.test)]
+    if tar_tests and all(_nd(cfgd, cfgd.evaluators(tar_tests[0].test), b) for b in cfgd.evaluators(sig_loop.iter)):
+        rep.ok({"order": "ustar @257 is tested before the prefix signatures"})
+    else:
+        rep.fail(Finding("C10-DISPATCH", ARCH, det.qual, "prefix signatures before the ustar test", "the prefix signatures are compared before the ustar magic at offset 257: an uncompressed TAR whose first member name begins like a signature ('BZ2020.txt', 'PK...') is taken for that format and rejected", line=sig_loop.lineno))
     ra = ctx.p.func(ARCH, "read_archive")
     handled = set()
     # the local that holds the detected type: assigned from the detector call
